@@ -725,6 +725,7 @@ func runC15(c *Ctx) {
 	ruleStopSweep(c, "R15.c")
 	ruleJoin(c, "R15.d")
 	ruleAcceptLoopEndsWithListener(c, "R15.f")
+	ruleAcceptLoopWaits(c, "R15.h")
 	ruleStopClosesWhatIsOpen(c, "R15.g")
 	ruleRegistryBracket(c, "R15.e")
 	ruleConnKeyUnique(c, "R15.e")
